@@ -29,14 +29,13 @@ from fractions import Fraction
 
 
 def scale_costs(cv):
-    """Exact integer costs: multiply by the common denominator."""
-    fr = [Fraction(x).limit_denominator(1 << 20) for x in cv]
-    for f, x in zip(fr, cv):
-        if float(f) != float(x):
-            raise ValueError(f"cost {x} is not exactly representable")
+    """Exact integer costs: floats are dyadic rationals, so Fraction(x) is
+    exact; multiply by the common denominator."""
+    import math
+    fr = [Fraction(x) for x in cv]
     den = 1
     for f in fr:
-        den = den * f.denominator // __import__("math").gcd(den, f.denominator)
+        den = den * f.denominator // math.gcd(den, f.denominator)
     return tuple(int(f * den) for f in fr), den
 
 
@@ -287,7 +286,6 @@ def validate_witness(P, path, API):
     codes = [f.code for f in M.failures
              if f.code not in ("restart_data_short",)]
     relaxed = sum(1 for f in M.failures if f.code == "restart_data_short")
-    cost = M.cost(*[Fraction(x).limit_denominator(1 << 20)
-                    for x in P.costs_in])
+    cost = M.cost(*[Fraction(x) for x in P.costs_in])
     ok = (not codes) and M.r == P.N
     return ok, cost, codes, relaxed
